@@ -344,3 +344,7 @@ def run(ctx):
     from .c09 import r5b_completion_flag
 
     r5b_completion_flag(ctx, 'C07.R5')
+    from .shared import deletion_confined_to_gc_commands
+
+    # a repeat snapshot finds the chunks it needs: nothing but delete / clean removes a stored chunk
+    deletion_confined_to_gc_commands(ctx, 'C07.R7')
